@@ -11,6 +11,8 @@ import os
 import sys
 
 
+from .common import cov_start as _cov_start, cov_save as _cov_save      # no-ops unless VERIF_COV is set (bin/covsweep)
+
 class InjectedIOError(OSError):
     pass
 
@@ -27,6 +29,7 @@ class Recorder:
         idx = self.n
         if idx == self.k:
             if self.mode == 'kill_before':
+                _cov_save()
                 os._exit(77)
             if self.mode == 'raise':
                 os.write(self.fd, (json.dumps(['!raise', idx]) + '\n').encode())
@@ -36,6 +39,7 @@ class Recorder:
 
     def after(self, idx):
         if self.mode == 'kill_after' and idx == self.k:
+            _cov_save()
             os._exit(77)
 
 
@@ -112,6 +116,7 @@ def in_child(fn, timeout=120):
     if pid == 0:
         rc = 1
         try:
+            _cov_start(fresh=True)
             devnull = os.open(os.devnull, os.O_WRONLY)
             os.dup2(devnull, 1)
             os.dup2(devnull, 2)
@@ -122,6 +127,7 @@ def in_child(fn, timeout=120):
         except BaseException:
             rc = 3
         finally:
+            _cov_save()
             os._exit(rc)
     _, status = os.waitpid(pid, 0)
     return os.WEXITSTATUS(status) if os.WIFEXITED(status) else -os.WTERMSIG(status)
